@@ -21,6 +21,7 @@ import (
 	"github.com/ipni/go-libipni/pcache"
 	"github.com/ipni/go-libipni/verifshim/vsched"
 	"github.com/libp2p/go-libp2p/core/peer"
+	"github.com/multiformats/go-multiaddr"
 
 	"verifharness/fixture"
 	"verifharness/sched"
@@ -53,8 +54,27 @@ type source struct {
 	fillers int
 }
 
+// rec: every record carries extended providers, chain-level and for context
+// "ctx", so that result expansion has something to expand: the provider itself,
+// providers that are not cached anywhere (and that no source knows), with and
+// without addresses of their own. Expanding them is a read of the record; it
+// has no business with the sources or the write path.
 func (s *source) rec(pid peer.ID, v int) *model.ProviderInfo {
-	return &model.ProviderInfo{AddrInfo: peer.AddrInfo{ID: pid}, LastAdvertisementTime: tstamp(v)}
+	a := multiaddr.StringCast("/ip4/192.0.2.1/tcp/3104")
+	x, y, z := fixture.Key("ed25519", 50).ID, fixture.Key("ed25519", 51).ID, fixture.Key("ed25519", 52).ID
+	return &model.ProviderInfo{
+		AddrInfo:              peer.AddrInfo{ID: pid, Addrs: []multiaddr.Multiaddr{a}},
+		LastAdvertisementTime: tstamp(v),
+		ExtendedProviders: &model.ExtendedProviders{
+			Providers: []peer.AddrInfo{{ID: pid, Addrs: []multiaddr.Multiaddr{a}}, {ID: x}, {ID: y, Addrs: []multiaddr.Multiaddr{a}}},
+			Metadatas: [][]byte{nil, []byte("x-md"), nil},
+			Contextual: []model.ContextualExtendedProviders{{
+				ContextID: "ctx",
+				Providers: []peer.AddrInfo{{ID: z}},
+				Metadatas: [][]byte{[]byte("z-md")},
+			}},
+		},
+	}
 }
 
 func (s *source) gate(what string) {
@@ -272,27 +292,27 @@ func refreshAndMissFetch() *sched.Scenario {
 			w := &world{pc, src}
 			src.gated = true
 			return []sched.Thread{
-				{Name: "W", Fn: func() {
-					src.mu.Lock()
-					src.recs[pP] = 2
-					src.mu.Unlock()
-					e.Log("W Refresh begin")
-					err := pc.Refresh(context.Background())
-					e.Log("W Refresh end err=%v", err)
-				}},
-				{Name: "F", Fn: func() {
-					e.Log("F Get(U) begin")
-					pi, err := pc.Get(context.Background(), pU)
-					e.Log("F Get(U) end found=%v err=%v", pi != nil, err)
-				}},
-				readerThread(e, w, "R1"),
-			}, func() {
-				// when everything has come to rest the cache must hold what the last
-				// completed update published: a reader arriving now sees the refreshed record
-				src.gated = false
-				pi, err := pc.Get(context.Background(), pP)
-				e.Log("END Get P=%d err=%v", verOf(pi), err)
-			}
+					{Name: "W", Fn: func() {
+						src.mu.Lock()
+						src.recs[pP] = 2
+						src.mu.Unlock()
+						e.Log("W Refresh begin")
+						err := pc.Refresh(context.Background())
+						e.Log("W Refresh end err=%v", err)
+					}},
+					{Name: "F", Fn: func() {
+						e.Log("F Get(U) begin")
+						pi, err := pc.Get(context.Background(), pU)
+						e.Log("F Get(U) end found=%v err=%v", pi != nil, err)
+					}},
+					readerThread(e, w, "R1"),
+				}, func() {
+					// when everything has come to rest the cache must hold what the last
+					// completed update published: a reader arriving now sees the refreshed record
+					src.gated = false
+					pi, err := pc.Get(context.Background(), pP)
+					e.Log("END Get P=%d err=%v", verOf(pi), err)
+				}
 		},
 		Check: func(e *sched.Exec) []sched.Finding {
 			out := checkReaders(e, name, []string{"W", "F", "R1"}, map[int]bool{1: true, 2: true})
